@@ -228,10 +228,10 @@ func (m *moduleEngine) putLocalMemory() {
 	offset := m.parent.offsets.LocalMemoryBegin
 
 	s := uint64(len(mem.Buffer))
-	var b uint64
-	if len(mem.Buffer) > 0 {
-		b = uint64(uintptr(unsafe.Pointer(&mem.Buffer[0])))
-	}
+	// The base of an empty buffer that already has its backing array (a shared memory with zero initial pages is
+	// allocated with its maximum as capacity and never moves) is that array: code compiled for shared memories loads
+	// the base once and does not re-load it after calls, so it must not see nil until the first growth.
+	b := uint64(uintptr(unsafe.Pointer(unsafe.SliceData(mem.Buffer))))
 	binary.LittleEndian.PutUint64(m.opaque[offset:], b)
 	binary.LittleEndian.PutUint64(m.opaque[offset+8:], s)
 }
